@@ -59,7 +59,7 @@ pub fn run(o: &Opts) -> Report {
     let mut rng = Rng::new(o.seed);
     let grammars = mgen::load_grammars();
     let mut pool = mgen::build_pool(if o.thorough() { 6 } else { 2 });
-    mgen::add_spec_contents(&mut pool, &mut rng, if o.thorough() { 30 } else { 8 });
+    mgen::add_spec_contents(&mut pool, &mut rng, if o.thorough() { 30 } else { 8 }, false);
     let per_type = if o.thorough() { 500 } else { 60 };
     let b3s = ["", "{3:}", "{3:{108:MUR12345}}", "{3:{999:PRIVATE}}", "{3:{113:URGT}{108:REF1}{121:180f1e65-90e0-44d5-a49a-92b55eb3025f}}", "{3:{103:TGT}{119:STP}{165:/ABC/INFO}{433:/AOK/}{434:/FPO/}}",
                "{3:{423:18071715301204}{106:120811BANKBEBBAXXX2222123456}{424:PQAB1234}{111:001}{115:121413 121413 DE BANKDECDA123}}"];
